@@ -44,7 +44,7 @@ ASSUMPTIONS = [
 
 def plan(tier):
     n = len(PROVS)
-    return {"prov": n * (40 if tier == "quick" else 4000), "history": 2500 if tier == "quick" else 150000}
+    return {"prov": n * (70 if tier == "quick" else 4000), "history": 6000 if tier == "quick" else 150000}
 
 
 def floors(tier):
